@@ -1,0 +1,17 @@
+//go:build verif
+
+// Contracts for package path, checked by /verif/gvc (comment-only file,
+// compiled only under the build tag "verif").
+package path
+
+// idxpath(p, prefix): the index form of p as a mathematical sequence. Path
+// messages are treated as immutable while indexed (no function under contract
+// writes a field of gpb.Path or gpb.PathElem).
+//@ spec idxpath(*gpb.Path, bool) seq[string]
+//@ axiom forall b bool :: len(idxpath(nil, b)) == 0
+
+//@ func ToStrings
+//@   props C19 C12
+//@   trusted functional postcondition not yet proved against the body (see C19)
+//@   ensures view(res0) == idxpath(p, prefix) && res0 != nil && fresh(res0)
+//@   ensures [target-leads] prefix && p != nil && p.Target != "" ==> len(res0) >= 1 && res0[0] == p.Target
